@@ -20,7 +20,7 @@ EXTENDS Emit
 
 (* sizes beyond the small grid: loops unrolled or special-cased for a size show only here *)
 Big == {<<5>>, <<7>>, <<4, 5>>, <<5, 1>>, <<1, 6>>, <<2, 4, 3>>, <<4, 1, 2, 5>>}
-Grid == (IF Thorough THEN Shapes(4, 3) \cup Shapes(6, 2)
+Grid == {<<17>>, <<9, 2>>, <<2, 11>>} \cup (IF Thorough THEN Shapes(4, 3) \cup Shapes(6, 2)
          ELSE Shapes(3, 2) \cup Shapes(2, 3) \cup {<<1, 3, 1, 2>>, <<2, 1, 1, 2, 3>>, <<2, 1, 2, 1, 1, 2>>}) \cup Big
 GridSeq == SetToSeq(Grid)
 FullRank == IF Thorough THEN 3 ELSE 2
